@@ -10,7 +10,7 @@ for f in Drivers/C*.lean; do
   t="drv_$(basename "$f" .lean | tr 'A-Z' 'a-z')"
   lake build "$t" 2>&1 | tail -1
 done
-for f in RomeaProofs/Properties/C*.lean RomeaProofs/Bridge/C*.lean; do
+for f in RomeaProofs/Properties/C*.lean RomeaProofs/Bridge/C*.lean RomeaProofs/Hidden/C*.lean; do
   [ -f "$f" ] || continue
   m="RomeaProofs.$(basename "$(dirname "$f")").$(basename "$f" .lean)"
   if ! lake build "$m" > /tmp/romea_setup_$$.log 2>&1; then
